@@ -185,6 +185,12 @@ type State struct {
 	cutDone  bool
 	initDone bool
 	frecs    []*frameRec // active frame-condition records (FrameBegin / FrameUnchanged)
+	outputs  []outRec    // vr.Output values (translation validation against the native run)
+}
+
+type outRec struct {
+	label string
+	ts    []*Term
 }
 
 type frameRec struct {
@@ -224,6 +230,7 @@ func (st *State) clone() *State {
 		faultAt:  st.faultAt,
 		initDone: st.initDone,
 	}
+	n.outputs = append([]outRec(nil), st.outputs...)
 	for _, f := range st.frecs {
 		nf := &frameRec{ids: f.ids, dirty: append([]string(nil), f.dirty...)}
 		n.frecs = append(n.frecs, nf)
